@@ -102,6 +102,65 @@ class System(object):
                 nonaffine.append(v)
         return known, forms, nonaffine
 
+
+    # ------------------------------------------------------------------------------
+    _PIECE = re.compile(r'^\s*(max|min)\s*\(\s*([-+]?[0-9.]+(?:[eE][-+]?[0-9]+)?)\s*,(.*)\)\s*$', re.S)
+
+    def _resolve_piecewise(self, known, forms, nonaffine):
+        """
+        Equations of the shape v = max(c, <affine>) / min(c, <affine>) (a floor or a cap on an otherwise linear
+        quantity): try every assignment of branches (at most 2**4), solve the linear system, keep the assignment the
+        solution is consistent with.  Returns the completed forms, or None when the equations are of another shape or no
+        (or more than one distinct) consistent assignment exists.
+        """
+        if len(nonaffine) > 4:
+            return None
+        pieces = {}
+        for v in nonaffine:
+            m = self._PIECE.match(self.eqs[v])
+            if m is None:
+                return None
+            try:
+                inner = expr.affine_eval(m.group(3), known)
+            except (expr.NotAffine, SyntaxError, ValueError):
+                return None
+            pieces[v] = (m.group(1), Fraction(m.group(2)), inner)
+        import itertools
+        found = None
+        for choice in itertools.product((True, False), repeat=len(nonaffine)):
+            trial = dict(forms)
+            for v, take_inner in zip(nonaffine, choice):
+                fn, c, inner = pieces[v]
+                trial[v] = inner if take_inner else expr.Affine(c)
+            unknowns = sorted(trial.keys())
+            ech = Echelon()
+            ok = True
+            for v in unknowns:
+                f = trial[v]
+                row = {u: -cf for u, cf in f.coef.items()}
+                row[v] = row.get(v, 0) + 1
+                row = {u: cf for u, cf in row.items() if cf != 0}
+                if any(u not in trial for u in row):
+                    ok = False
+                    break
+                ech.add(row, f.const)
+            if not ok or ech.inconsistent or len(ech.pivots) < len(unknowns):
+                continue
+            vals = ech.solution()
+            consistent = True
+            for v, take_inner in zip(nonaffine, choice):
+                fn, c, inner = pieces[v]
+                iv = inner.const + sum((cf * vals[u] for u, cf in inner.coef.items()), Fraction(0))
+                if fn == 'max':
+                    consistent = consistent and ((iv >= c) if take_inner else (iv <= c))
+                else:
+                    consistent = consistent and ((iv <= c) if take_inner else (iv >= c))
+            if consistent:
+                if found is not None and found[1] != vals:
+                    return None
+                found = (trial, vals)
+        return found[0] if found is not None else None
+
     def solve(self, K, state0=None):
         if state0 is None:
             state0 = self.initial_state()
@@ -113,6 +172,10 @@ class System(object):
         sol.status.append('given')
         for k in range(1, K + 1):
             known, forms, nonaffine = self.period_forms(k, prev, exo_vals)
+            if nonaffine:
+                forms = self._resolve_piecewise(known, forms, nonaffine)
+                if forms is not None:
+                    nonaffine = []
             if nonaffine:
                 sol.status.append('nonaffine')
                 sol.detail.append(nonaffine)
